@@ -548,6 +548,27 @@ class World:
             if c is not None and c[0] == 'same':
                 self.vio('listed-site-not-rewritten', {'site': repr(p), 'k': k}, strategy=name, where_kind=wk)
                 break
+        # "...and only it": a listed site nested inside the aimed one is carried along intact, so
+        # wherever it reappears its own statements reappear exactly as often as it does
+        if wk == 'idx' and name != 'inline':
+            tgt = site_paths[where]
+            fo = _fp_counts(f.ast)
+            fg = _fp_counts(g.ast)
+            for p in site_paths:
+                if p == tgt or not beneath_or_at(p, tgt):
+                    continue
+                inner = M.resolve(f.ast, p)
+                fpi = M.fingerprint(inner)
+                cg = fg.get(fpi, 0)
+                if cg < 1 or fo.get(fpi, 0) != 1:
+                    continue
+                for q, x in _descendants(inner):
+                    fx = M.fingerprint(x)
+                    if fo.get(fx, 0) == 1 and fg.get(fx, 0) != cg:
+                        self.vio('nested-site-also-rewritten', {'aimed': repr(tgt), 'nested': repr(p), 'copies_of_nested_site': cg,
+                                                                'copies_of_its_statement': fg.get(fx, 0), 'stmt': _fmt(x)},
+                                 strategy=name, where_kind=wk)
+                        break
         # statements the reported edits did not touch are unchanged
         if g.edits is not None:
             self.check_edits(f, g, al, name, wk)
@@ -694,6 +715,21 @@ class World:
                 if self.canon(ti) != self.canon(rec['node']):
                     self.check_forward(rec, ti, 'final-sweep')
         return self.vios
+
+
+def _fp_counts(func) -> dict:
+    out: dict = {}
+    for _, s in M.walk(func):
+        k = M.fingerprint(s)
+        out[k] = out.get(k, 0) + 1
+    return out
+
+
+def _descendants(stmt):
+    for field, sub in M.block_fields(stmt):
+        for i, c in enumerate(sub.stmts):
+            yield (field, i), c
+            yield from _descendants(c)
 
 
 def _block_has_duplicates(al, bpath) -> bool:
